@@ -111,8 +111,22 @@ def spacingRegular (dSorted : List Rat) (rk : List Nat) (hint : Option Rat) (rto
     | none => .ok (s, reg, rk.map Int.ofNat)
   | _, _ => .error .index
 
-/-- the same with gaps allowed: spacing = hint or the smallest consecutive difference (`none` when that is
-zero within `1e-5`), index = rounded multiple of the spacing above the lowest distance, regular iff
+/-- refinement of the estimated spacing over growing baselines (defect C11-gaps-min-gap-estimate, repaired): for the distance
+`D` of each plane above the lowest one, in increasing order, `n = round(D / s)` and, if `n > 0`, the estimate becomes `D / n`.
+The smallest gap carries the rounding of two positions; taken at face value it is multiplied by the plane number. -/
+def refineSpacing (s : Rat) (ds : List Rat) : Rat :=
+  ds.foldl (fun s D => if 0 < roundHalfEven (D / s) then D / ((roundHalfEven (D / s) : Int) : Rat) else s) s
+
+/-- the spacing `get_volume_positions` estimates when gaps are allowed and no hint is given: the smallest consecutive
+difference (`none` when that is zero within `1e-5`), refined over the distances above the lowest plane -/
+def estimateSpacing (dSorted : List Rat) : Except ErrKind (Option Rat) :=
+  match minList (diffs dSorted) with
+  | some m => if isClose m 0 npRtol eqTol then pure none
+              else pure (some (refineSpacing m (dSorted.tail.map fun x => x - dSorted.headD 0)))
+  | none => .error .value
+
+/-- the same with gaps allowed: spacing = hint or the estimate `estimateSpacing` (smallest consecutive difference, `none` when that is
+zero within `1e-5`, refined over the extent), index = rounded multiple of the spacing above the lowest distance, regular iff
 every multiple is within `rtol + atol/|spacing|` of its rounding, i.e. every plane within `atol + rtol·|spacing|`
 (mm) of a whole multiple of the spacing above the lowest plane (repaired behaviour, defect
 C11-gaps-tolerance-grows: the tolerance used to be relative to the multiple). -/
@@ -120,9 +134,7 @@ def spacingMissing (d dSorted : List Rat) (hint : Option Rat) (rtol atol : Rat) 
     Except ErrKind (Option (Rat × Bool × List Int)) := do
   let sp ← (match hint with
     | some h => pure (some h)
-    | none => match minList (diffs dSorted) with
-      | some m => if isClose m 0 npRtol eqTol then pure none else pure (some m)
-      | none => .error .value : Except ErrKind (Option Rat))
+    | none => estimateSpacing dSorted : Except ErrKind (Option Rat))
   match sp, minList d with
   | some s, some dmin =>
     let mult := d.map fun x => (x - dmin) / s
